@@ -21,14 +21,18 @@ MARGIN = 17       # zero margin of the "smooth" page content (so that cutting in
 def bounds(family, **kw):
     b = {"Family": family, "Ns": [2, 3, 4, 5], "DXs": [12], "DYs": [0], "Curvs": [0], "X0s": [20], "Y0s": [60],
          "Ascs": [12], "Descs": [5], "Hs": [16], "Polys": [0, 1, 2], "Scales": [10], "PageH": 130, "PageW": 170,
-         "Kinds": ["smooth"], "Shifts": [0], "record_px": False, "via": "engine"}
+         "Kinds": ["smooth"], "Shifts": [0], "record_px": False, "via": "engine",
+         # round 9: the numeric environment of the host process.  Env = "strict" = the space is ALSO run with floating-point errors
+         # raised (np.errstate(all="raise")) and with warnings turned into errors, every heights container in turn, through both
+         # entry points; only the fallback clause is claimed there, so every line of such a space must be Degenerate (StrictScope)
+         "Env": "default", "EnvKinds": ["default"], "HKs": [None], "Vias": None}
     b.update(kw)
     return b
 
 
 def tla_constants(b, legacy=False, mut="none"):
     s = lambda xs: set(int(x) + OFF for x in xs)
-    return {"Family": b["Family"], "Legacy": bool(legacy), "Mut": mut, "Off": OFF,
+    return {"Family": b["Family"], "Legacy": bool(legacy), "Mut": mut, "Off": OFF, "Env": b.get("Env", "default"),
             "Ns": set(b["Ns"]), "DXs": set(b["DXs"]), "DYs": s(b["DYs"]), "Curvs": s(b["Curvs"]),
             "X0s": s(b["X0s"]), "Y0s": s(b["Y0s"]), "Ascs": set(b["Ascs"]), "Descs": set(b["Descs"]),
             "Hs": set(b["Hs"]), "Polys": set(b["Polys"]), "Scales": set(b["Scales"]),
@@ -43,14 +47,21 @@ def heights_of(case):
     """the line's heights in one of the container / element types real layouts carry (a Python list after construction, a
     float64 array after PAGE XML import, float32 / int arrays from detectors); same values, chosen by a hash of the case"""
     a, d = case["asc"], case["desc"]
-    k = (7 * a + 3 * d + sum(x + 2 * y for x, y in case["pts"]) + case["poly"]) % 4
+    k = case.get("hk")          # round 9: a named container kind (strict-environment spaces, repeat sessions)
+    if k is None:
+        k = (7 * a + 3 * d + sum(x + 2 * y for x, y in case["pts"]) + case["poly"]) % 4
     if k == 0:
         return [a, d]
     if k == 1:
         return np.array([a, d], dtype=np.float64)
     if k == 2:
         return np.array([a, d], dtype=np.float32)
+    if k == 4:
+        return (float(a), float(d))
     return [np.float64(a), np.float64(d)]
+
+
+HK_NAMES = {None: "hash-chosen", 0: "list", 1: "float64 array", 2: "float32 array", 3: "list of np.float64", 4: "tuple"}
 
 
 def grid_line(pts, asc, desc, h, sc):
@@ -74,11 +85,24 @@ def enumerate_cases(b):
             if key in seen:          # e.g. the bump has no effect on 2-point baselines: one TLC state
                 continue
             seen.add(key)
-            out.append({"pts": pts, "asc": asc, "desc": desc, "H": h, "poly": poly, "sc": sc,
-                        "page": {"kind": kind, "h": b["PageH"] + s, "w": b["PageW"] + s, "ox": s, "oy": s},
-                        "base": {"h": b["PageH"], "w": b["PageW"]}, "record_px": bool(b["record_px"]),
-                        "shift": s, "gen": [n, x0, y0, dx, dy, c], "via": b.get("via", "engine")})
+            # round 9: each configuration once per (numeric environment, heights container, entry point) of the space
+            for env, hk, via in itertools.product(b.get("EnvKinds") or ["default"], b.get("HKs") or [None],
+                                                  b.get("Vias") or [b.get("via", "engine")]):
+                c_ = {"pts": pts, "asc": asc, "desc": desc, "H": h, "poly": poly, "sc": sc,
+                      "page": {"kind": kind, "h": b["PageH"] + s, "w": b["PageW"] + s, "ox": s, "oy": s},
+                      "base": {"h": b["PageH"], "w": b["PageW"]}, "record_px": bool(b["record_px"]),
+                      "shift": s, "gen": [n, x0, y0, dx, dy, c], "via": via}
+                if env != "default":
+                    c_["env"] = env
+                if hk is not None:
+                    c_["hk"] = hk
+                out.append(c_)
     return out
+
+
+def multiplicity(b):
+    """executions per configuration TLC starts from (environments x heights containers x entry points)"""
+    return len(b.get("EnvKinds") or ["default"]) * len(b.get("HKs") or [None]) * len(b.get("Vias") or [1])
 
 
 # ----------------------------------------------------------------------------------------------- sessions
@@ -131,22 +155,77 @@ def sessions(tier, seed):
     return out
 
 
+def repeat_sessions(tier, seed):
+    """Round 9 - the SAME line cropped more than once.  Real callers keep the line (TextLine.heights: a float64 array after layout
+    detection, a float32 array / list / tuple elsewhere) and crop it again: baseline refinement followed by the final crop, a page run
+    through LineCropper.process_page twice.  One session = one line whose heights OBJECT (and, on the LineCropper route, whose
+    TextLine / PageLayout objects) is handed to the same long-lived cropper `REPEATS` times at a scale != 1.  Every call is judged
+    against the line's heights as the caller set them (width clause, band clause 12) and calls 2.. carry the first call's crop as the
+    reference of the same-pixels clause.  Sampled, trace-validated only (like the other sessions)."""
+    import random
+    rng = random.Random(104729 * (seed + 1))
+    th = tier == "thorough"
+    out = []
+    k = 0
+    for hk in (1, 2, 0, 3, 4):
+        for sc in ((8, 15, 12, 10) if th else (8, 15)):
+            for via in ("engine", "linecropper"):
+                for poly in ((0, 1, 2) if th else ((k + (hk == 1)) % 3,)):
+                    n = rng.choice([2, 3, 4, 5])
+                    dx = rng.choice([110, 124, 139]) // (n - 1)
+                    sl = rng.choice([-3, -1, 0, 2, 4])
+                    amp = rng.choice([0, 2, -2]) if n > 2 else 0
+                    asc, desc, h = rng.choice([(12, 5, 16), (22, 10, 32), (20, 8, 16)])
+                    rel = dense_pts(n, 0, 0, dx, sl, amp)
+                    x0 = 30
+                    y0 = 10 + int(math.ceil(1.5 * asc)) - min(p[1] for p in rel)
+                    pts = [[x0 + p[0], y0 + p[1]] for p in rel]
+                    ph = max(p[1] for p in pts) + int(math.ceil(1.5 * desc)) + 12
+                    pw = max(p[0] for p in pts) + 40
+                    call = {"pts": pts, "asc": asc, "desc": desc, "H": h, "poly": poly, "sc": sc,
+                            "page": {"kind": "rows", "h": ph, "w": pw, "ox": 0, "oy": 0}, "base": {"h": ph, "w": pw},
+                            "record_px": True, "shift": 0, "gen": [n, x0, y0, dx, sl, amp], "via": via,
+                            "long_lived": True, "after_failure": False, "hk": hk, "keep": "rep-%d" % k}
+                    out.append([dict(call, repeat=r + 1) for r in range(REPEATS)])
+                    k += 1
+    return out
+
+
+REPEATS = 3
+
+
 def run_sessions(sess):
     """every call of every session, in order, in THIS process; a case carries the earlier calls of its session (what replay re-runs)"""
     reset_long_lived()
     cases, traces = [], []
     for s in sess:
+        first = None
         for k, c in enumerate(s):
-            traces.append(run_case(c))
-            cases.append(dict(c, session=s[:k]))
+            t = run_case(c)
+            c = dict(c, session=s[:k])
+            if c.get("keep"):           # repeat sessions: the first crop of the line is the reference of the later ones
+                if k == 0:
+                    first = t
+                elif first["px"] and t["px"]:
+                    t["ref"] = first["px"]
+                    c["ref"] = t["ref"]
+            traces.append(t)
+            cases.append(c)
     return cases, traces
 
 
 def replay_case(case):
     if case.get("long_lived"):
         reset_long_lived()
+        first = None
         for c in case.get("session") or []:
-            run_case(c)
+            t = run_case(c)
+            first = first or t
+        tr = run_case(case)
+        if case.get("keep") and first is not None and first["px"] and tr["px"]:
+            tr["ref"] = first["px"]          # judged against the first crop of THIS replay (not the stored one)
+            case["ref"] = tr["ref"]
+        return tr
     return run_case(case)
 
 
@@ -229,7 +308,9 @@ def run_case(case):
     img = _session_page(case) if case.get("long_lived") else paint(case["page"], case["base"])
     ev = {"inp": "none", "cwin": 0, "path": "none", "kind": "none", "h": 0, "w": 0}
     rec = {"pts": case["pts"], "asc": case["asc"], "desc": case["desc"], "H": case["H"], "poly": case["poly"],
-           "sc": case["sc"], "page": case["page"], "outcome": "ok", "ev": ev, "px": [], "ref": [], "msg": False, "corners": []}
+           "sc": case["sc"], "page": case["page"], "outcome": "ok", "ev": ev, "px": [], "ref": [], "msg": False, "corners": [],
+           "env": case.get("env", "default"), "hk": HK_NAMES[case.get("hk")], "call": int(case.get("repeat", 1)), "hafter": []}
+    heights = _kept(case).setdefault("heights", heights_of(case)) if case.get("keep") else heights_of(case)
     lc = None
     if case.get("via") == "linecropper":        # the pipeline's wrapper (page_parser.LineCropper.process_page) around the same engine
         lc = _long_lived(case) if case.get("long_lived") else _line_cropper(case)
@@ -269,12 +350,14 @@ def run_case(case):
     buf = io.StringIO()
     crop = None
     try:
-        with contextlib.redirect_stdout(buf), np.errstate(all="ignore"), warnings.catch_warnings():
-            warnings.simplefilter("ignore")
+        with contextlib.redirect_stdout(buf), host_environment(rec["env"]):
             if lc is not None:
-                crop = _process_page(lc, img, case)
+                crop = _process_page(lc, img, case, heights)
             else:
-                crop = ce.crop(img, np.array(case["pts"], dtype=float), heights_of(case))
+                base = np.array(case["pts"], dtype=float)
+                if case.get("keep"):          # the caller keeps the baseline object as well
+                    base = _kept(case).setdefault("baseline", base)
+                crop = ce.crop(img, base, heights)
     except Exception as ex:       # the statement says "never an error": recorded, not a harness failure
         rec["outcome"] = "exception:" + type(ex).__name__
     finally:
@@ -282,6 +365,7 @@ def run_case(case):
         for name in ("get_crop_inputs", "fast_remap"):      # long-lived objects: take the observers off again
             ce.__dict__.pop(name, None)
     rec["msg"] = "line crop failed" in buf.getvalue()
+    rec["hafter"] = _fixed_heights(_kept(case)["line"].heights if case.get("keep") and "line" in _kept(case) else heights)
     if ev["inp"] == "raise":
         ev["path"] = "skipped"
     if crop is not None:
@@ -304,18 +388,47 @@ FP = 16           # fixed point of recorded sample positions: 1/16 px
 FP_CLAMP = 1 << 20
 
 
+@contextlib.contextmanager
+def host_environment(env):
+    """process-wide numeric state a hosting application may have chosen (numpy error state, warnings filter):
+    "default" = what the check always used (everything ignored); "fperr" = np.seterr(all="raise");
+    "warnerr" = numpy's default error state with warnings turned into errors (python -W error)"""
+    with warnings.catch_warnings():
+        if env == "fperr":
+            warnings.simplefilter("ignore")
+            ctx = np.errstate(all="raise")
+        elif env == "warnerr":
+            warnings.simplefilter("error")
+            ctx = np.errstate(divide="warn", over="warn", under="ignore", invalid="warn")
+        else:
+            warnings.simplefilter("ignore")
+            ctx = np.errstate(all="ignore")
+        with ctx:
+            yield
+
+
+def _fixed_heights(h):
+    """the heights the caller holds after the call, 1/16 units (information for the report; [] when unreadable)"""
+    try:
+        with np.errstate(all="ignore"):
+            return [int(np.clip(round(float(h[0]) * FP), -FP_CLAMP, FP_CLAMP)), int(np.clip(round(float(h[1]) * FP), -FP_CLAMP, FP_CLAMP))]
+    except Exception:
+        return []
+
+
 def _corners(co):
     """the four corners of the coordinate grid get_crop_inputs returned - <<top-left, top-right, bottom-left, bottom-right>>, each
     (x, y) in 1/16 px (non-finite or absurd values are clamped: the trace spec then sees a position far from the baseline)"""
     try:
-        co = np.asarray(co, dtype=np.float64)
-        if co.ndim != 3 or co.shape[2] != 2 or co.shape[0] < 1 or co.shape[1] < 1:
-            return []
-        out = []
-        for r, c in ((0, 0), (0, -1), (-1, 0), (-1, -1)):
-            v = np.nan_to_num(co[r, c] * FP, nan=FP_CLAMP, posinf=FP_CLAMP, neginf=-FP_CLAMP)
-            out.append([int(np.clip(np.round(v[0]), -FP_CLAMP, FP_CLAMP)), int(np.clip(np.round(v[1]), -FP_CLAMP, FP_CLAMP))])
-        return out
+        with host_environment("default"):        # the observer's own arithmetic never runs in the strict environment
+            co = np.asarray(co, dtype=np.float64)
+            if co.ndim != 3 or co.shape[2] != 2 or co.shape[0] < 1 or co.shape[1] < 1:
+                return []
+            out = []
+            for r, c in ((0, 0), (0, -1), (-1, 0), (-1, -1)):
+                v = np.nan_to_num(co[r, c] * FP, nan=FP_CLAMP, posinf=FP_CLAMP, neginf=-FP_CLAMP)
+                out.append([int(np.clip(np.round(v[0]), -FP_CLAMP, FP_CLAMP)), int(np.clip(np.round(v[1]), -FP_CLAMP, FP_CLAMP))])
+            return out
     except Exception:
         return []
 
@@ -324,10 +437,16 @@ def _corners(co):
 # process and hands it line after line, page after page; several configurations may live side by side.  A session of the driver
 # does the same: the objects below are created once per (kind, height, interpolation, scale) and re-used by every later call.
 _LONG_LIVED = {}
+_KEPT = {}        # repeat sessions: what the CALLER keeps between the crops of one line (heights object, TextLine, PageLayout)
 
 
 def reset_long_lived():
     _LONG_LIVED.clear()
+    _KEPT.clear()
+
+
+def _kept(case):
+    return _KEPT.setdefault(case["keep"], {})
 
 
 def _long_lived(case):
@@ -363,23 +482,34 @@ def _line_cropper(case):
     return LineCropper(cp["LINE_CROPPER"])
 
 
-def _process_page(lc, img, case):
+def _process_page(lc, img, case, heights=None):
     from pero_ocr.core.layout import PageLayout, RegionLayout, TextLine
-    pl = PageLayout(id="p", page_size=(img.shape[0], img.shape[1]))
-    reg = RegionLayout("r1", np.array([[0, 0], [img.shape[1], 0], [img.shape[1], img.shape[0]], [0, img.shape[0]]]))
-    reg.lines.append(TextLine(id="l1", baseline=np.array(case["pts"], dtype=float), polygon=np.array([[0, 0], [1, 0], [1, 1]]),
-                              heights=heights_of(case)))
-    pl.regions.append(reg)
+    kept = _kept(case) if case.get("keep") else {}
+    if "layout" not in kept:          # repeat sessions: the same PageLayout / TextLine is processed again
+        pl = PageLayout(id="p", page_size=(img.shape[0], img.shape[1]))
+        reg = RegionLayout("r1", np.array([[0, 0], [img.shape[1], 0], [img.shape[1], img.shape[0]], [0, img.shape[0]]]))
+        reg.lines.append(TextLine(id="l1", baseline=np.array(case["pts"], dtype=float), polygon=np.array([[0, 0], [1, 0], [1, 1]]),
+                                  heights=heights_of(case) if heights is None else heights))
+        pl.regions.append(reg)
+        kept["layout"], kept["line"] = pl, reg.lines[0]
+    pl, line = kept["layout"], kept["line"]
+    line.crop = None
     lc.process_page(img, pl)
-    return reg.lines[0].crop
+    return line.crop
 
 
 def label(case):
     pts = case["pts"]
     shown = str(pts) if len(pts) <= 8 else "%s ... %s (%d points)" % (str(pts[:3])[:-1], str(pts[-2:])[1:], len(pts))
     extra = ""
+    if case.get("env"):
+        extra += " [host environment %s]" % {"fperr": "np.seterr(all='raise')", "warnerr": "warnings as errors"}.get(case["env"], case["env"])
+    if case.get("hk") is not None:
+        extra += " [heights as %s]" % HK_NAMES[case["hk"]]
+    if case.get("keep"):
+        extra += " [crop %d of the same line, the caller keeps the heights object]" % case.get("repeat", 1)
     if case.get("long_lived"):
-        extra = " [call %d of a session on long-lived %s objects%s]" % (
+        extra += " [call %d of a session on long-lived %s objects%s]" % (
             len(case.get("session") or []) + 1, "LineCropper" if case.get("via") == "linecropper" else "EngineLineCropper",
             ", after a failing call" if case.get("after_failure") else "")
     return "pts=%s heights=[%d,%d] H=%d poly=%d scale=%.1f page=%s%s" % (
